@@ -106,6 +106,14 @@ impl Spec {
 }
 
 pub fn run_spec(subject: &dyn Subject, input: &[u8], spec: &Spec) -> Execution {
+    let describe = || {
+        (
+            format!("{}/fatal", family_of(subject)),
+            format!("{} on {:?} [{}]", subject.name(), show(input), spec.describe()),
+            json!({"property": "C05", "subject": subject.name(), "input_hex": hex(input), "input": show(input), "spec": spec.to_json()}),
+        )
+    };
+    let _guard = crate::abortguard::enter(&describe);
     let boundaries = if spec.line_gated { Some(subject.boundaries(input)) } else { None };
     let cfg = SourceCfg::new(input, spec.grain.clone()).fault_at(spec.fault_at).interrupts(spec.interrupts).boundaries(boundaries.as_deref());
     execute(subject, cfg, spec.chunk, spec.forced.clone())
